@@ -691,11 +691,11 @@ def plan(ctx: Ctx):
     exh(5, 2, "mid")
     if ctx.quick:
         slice_(2, 5, 300)
-        slice_(3, 4, 1500)
+        slice_(3, 4, 1200)
         slice_(4, 3, 2000)
-        slice_(4, 4, 2500)
+        slice_(4, 4, 2000)
         dense_shapes = [(5, 4), (4, 5), (5, 5), (6, 4), (6, 5), (7, 4), (7, 5), (8, 4), (8, 5)]
-        n_dense, n_named = 24000, 9000
+        n_dense, n_named = 20000, 7000
     else:
         for R, C in ((2, 5), (3, 4), (4, 3), (4, 4), (3, 5), (5, 3)):
             exh(R, C, "mid")
